@@ -188,6 +188,22 @@ def report_texts(report):
 
 def gen_grep(rng, report):
     """mostly a digit (or two characters) taken from a text really present in the report, so that each text source decides"""
+    if report and rng.random() < 0.12:
+        # a pattern that straddles two ADJACENT texts of one test (end of one, a line break, beginning of the next): each text
+        # is searched on its own, so such a pattern selects nothing
+        pairs = []
+        for chain, n, is_test in walk(report["suites"]):
+            if is_test:
+                seq = []
+                for st in n["steps"]:
+                    seq.append(st["desc"])
+                    for l in st["logs"]:
+                        seq += [x for x in l[1:] if isinstance(x, str)]
+                pairs += [(a, b) for a, b in zip(seq, seq[1:]) if a and b]
+        pairs = [(a, b) for a, b in pairs if all(ch.isalnum() or ch in "_ " for ch in a[-2:] + b[:2])]
+        if pairs:
+            a, b = rng.choice(pairs)
+            return a[-rng.choice([1, 2]):] + "\n" + b[:rng.choice([1, 2])]
     texts = [t for t in report_texts(report) if any(ch.isdigit() for ch in t)] if report else []
     if texts and rng.random() < 0.75:
         t = rng.choice(texts)
